@@ -36,7 +36,7 @@ def check(model, rep, tier):
   rep.touch(TPL, AU, PARSER, LOADER, API, QN)
   rep.rule('TREE-CTOR', 'AST constructions well formed per ASDL', floor=45)
   rep.rule('TREE-COPY', 'replacements are clean copies; copier rebuilds', floor=8)
-  rep.rule('TREE-CTX', 'context adjustment and restoration', floor=5)
+  rep.rule('TREE-CTX', 'context adjustment and restoration', floor=7)
   rep.rule('TREE-TEXT', 'text loaded = text mapped = text shown', floor=9)
   rep.rule('TREE-LITERAL', 'literal parts of qualified names are parser-produced '
            'constants (they are printed back as ast.Constant)', floor=1)
@@ -212,6 +212,30 @@ def check(model, rep, tier):
     rep.check(ok, 'TREE-CTX', '%s:%s:children-load' % (TPL, hname),
               'the object of an attribute / subscript is always read (Load)',
               line=h.node.lineno if h else None)
+  # expression kinds that hold a binding target while being evaluated themselves:
+  # the override (Load, from the placeholder position) must not reach the target
+  for kind, fld in (('NamedExpr', 'target'), ('comprehension', 'target')):
+    h = ca.methods.get('visit_' + kind)
+    ok = h is not None
+    if ok:
+      hg = pycfg.CFG(h.node)
+      clears = [i for i, (k, a) in enumerate(hg.nodes) if isinstance(a, ast.Assign) and
+                core.norm(a.targets[0]) == 'self._ctx_override' and isinstance(
+                    a.value, ast.Constant) and a.value.value is None]
+      descends = [i for i in range(len(hg.nodes)) if any(
+          core.dotted(c.func) in ('self.generic_visit', 'self.visit')
+          for c in pycfg.calls_at(hg, i))]
+      dom = hg.dominators()
+      ok = bool(clears) and bool(descends) and all(
+          any(c in dom.get(d, ()) for c in clears) for d in descends)
+    rep.check(ok, 'TREE-CTX', '%s:ContextAdjuster:barrier(%s.%s)' % (TPL, kind, fld),
+              'the %s of a %s is a store wherever the expression stands: the '
+              'context adjuster must drop the inherited override before it '
+              'descends, otherwise a replacement placed in a Load position turns '
+              'the target into a read' % (fld, kind),
+              line=h.node.lineno if h else ca.node.lineno,
+              witness='g((y := x + 1)) + y  ->  `ag__.ld(y) := ...` (SyntaxError '
+              'when the generated module is loaded)')
   # unset ctx only for template replacement
   c2a = model.func(TPL, '_convert_to_ast')
   callers = []
